@@ -59,7 +59,10 @@ def decode_tree(d):
     shapes = []
     for _ in range(d.int(1, 4)):
         sp = c02.shape_params(d)
-        shapes.append([sp, gen.matrix(d)["m"] if d.bool() else None, d.choice(docgen.PALETTE + ["none"]), d.choice(docgen.PALETTE + ["none"]), d.choice([1.0, 2.0, 0.5, 3.25])])
+        shapes.append([sp, gen.matrix(d)["m"] if d.bool() else None, d.choice(docgen.PALETTE + ["none"]), d.choice(docgen.PALETTE + ["none"]), d.choice([1.0, 2.0, 0.5, 3.25]),
+                       # how the paint reaches the shape: attributes set afterwards / constructor keywords / keywords with a
+                       # translucent Color and a python-style opacity keyword / keywords, then the alpha edited on the object
+                       d.choice(["attr", "attr", "kwargs", "kwargs+opacity", "edited"]), d.choice([0.5, 0.25, 0.75, 0.4]), d.choice([0.5, 0.25, 0.8])])
     vb = None
     if d.bool():
         vb = "%s %s %s %s" % (docgen.fmtn(docgen.num(d, -20, 20)), docgen.fmtn(docgen.num(d, -20, 20)), docgen.fmtn(max(docgen.num(d, 20, 400), 1.0)), docgen.fmtn(max(docgen.num(d, 20, 400), 1.0)))
@@ -174,14 +177,28 @@ def build_tree(case):
     root = se.SVG(**kw)
     g = se.Group()
     inner = se.Group() if case["nest"] else g
-    for i, (sp, m, fill, stroke, width) in enumerate(case["shapes"]):
-        s = c17.mk_shape(["rect" if sp[0] == "rrect" else sp[0], sp[1]])
-        if sp[0] in ("polyline", "polygon", "line"):
-            pass
-        s.fill = se.Color(fill)
-        s.stroke = se.Color(stroke)
-        s.stroke_width = width
-        s.id = "s%d" % i
+    for i, spec in enumerate(case["shapes"]):
+        sp, m, fill, stroke, width = spec[:5]
+        route, a0, a1 = (spec[5], spec[6], spec[7]) if len(spec) > 5 else ("attr", 1.0, 1.0)
+        params = ["rect" if sp[0] == "rrect" else sp[0], sp[1]]
+        if route == "attr":
+            s = c17.mk_shape(params)
+            s.fill = se.Color(fill)
+            s.stroke = se.Color(stroke)
+            s.stroke_width = width
+            s.id = "s%d" % i
+        elif route == "kwargs":
+            s = c17.mk_shape(params, fill=fill, stroke=stroke, stroke_width=width, id="s%d" % i)
+        elif route == "kwargs+opacity":
+            kw = {"fill": fill if fill == "none" else se.Color(fill, a0), "stroke": stroke if stroke == "none" else se.Color(stroke, a0), "stroke_width": width, "id": "s%d" % i,
+                  "fill_opacity": a1, "stroke_opacity": a1}
+            s = c17.mk_shape(params, **kw)
+        else:
+            s = c17.mk_shape(params, fill=fill, stroke=stroke, stroke_width=width, id="s%d" % i, fill_opacity=a1)
+            if s.fill is not None and s.fill.value is not None:
+                s.fill.opacity = a0
+            if s.stroke is not None and s.stroke.value is not None:
+                s.stroke.opacity = a0
         if m is not None:
             s *= lib.mk_matrix(m)
         (inner if i % 2 else g).append(s)
@@ -218,7 +235,7 @@ def check(case):
         if case["viewbox"]:
             o.label("has:viewbox")
         source = repr(case)[:300]
-        if any((m is not None and gen.mat_det(m) < 0) for _, m, _, _, _ in case["shapes"]) or (case["group"] is not None and gen.mat_det(case["group"]) < 0):
+        if any((m is not None and gen.mat_det(m) < 0) for m in [sp_[1] for sp_ in case["shapes"]]) or (case["group"] is not None and gen.mat_det(case["group"]) < 0):
             o.label("det:negative")
     r1 = [shape_record(e) for e in c03.shapes_of(g1)]
     if case["kind"] == "doc" and any(gen.mat_det((float(e.transform.a), float(e.transform.b), float(e.transform.c), float(e.transform.d), 0, 0)) < 0 for e in c03.shapes_of(g1)):
